@@ -8,6 +8,17 @@ CHECKS = {
    text="Generated search over configurations, workloads, per-packet fault sequences and initial TSNs (incl. an aimed tiny-message flood across the 2^32 wrap) with an exact per-stream delivery oracle; holds on everything explored, absence is not established.",
    note="One schedule per scenario (orchestrated engine); liveness bounded in virtual time; trusted: synctest fake clock, harness net.Conn, independent wire decoder.", ref="6/C01"),
 }
+CHECKS.update({
+ "C05": dict(level="exploration", technique="model-based property testing (rapid): receive TSN queue vs set-of-TSNs reference model; puppet sender vs real receiver with every SACK judged against an independent reference model",
+   text="Generated arrival histories (orders, duplicates, gaps, forward-TSNs, window edges, 4096/64*words aliases, wrap-straddling cumulative points) checked step by step against an obviously-correct set model, and on the wire against a ledger of what was delivered.",
+   note="Wire check assumes an unlimited receive buffer and a reading application so that 'accepted' = 'new and inside the window'; model check calls the queue the way the association does.", ref="6/C05"),
+ "C12": dict(level="exploration", technique="property-based round-trip and differential testing (rapid) of the codec against an independent RFC-derived encoder/decoder; well-formedness monitor over all packets emitted in simulated runs; coverage-guided native fuzzing of decode/re-encode (thorough)",
+   text="Every chunk type with arbitrary fields and bundles of 1-8 chunks: library decode(encode(x)) = x, byte-identical to an independent encoder, bundling independence, re-encode fixpoint on mutated packets, and RFC well-formedness of every packet emitted in simulated runs.",
+   note="Independent codec written from the RFCs is trusted as the reference; multi-cause ABORT/ERROR with unaligned non-final causes is compared by library round trip only (library concatenates causes without padding).", ref="6/C12"),
+ "C16": dict(level="exploration", technique="exhaustive/sampled enumeration of serial-number helpers against a two's-complement reference; metamorphic shift testing of queues; differential end-to-end runs at shifted initial TSN/SSN/MID (rapid)",
+   text="Thorough tier enumerates all 2^32 pairs of 16-bit serial numbers and all 2^32 differences for 4 bases of the 32-bit helpers (exhaustive for that sub-space); components and whole associations are run at a mid-range and a wrap-adjacent base and must behave identically up to the shift.",
+   note="The library is not deterministic inside one virtual instant; an end-to-end divergence is reported only if 10 runs per base agree among themselves and differ between bases.", ref="6/C16"),
+})
 NOT_YET = {}
 props = [json.loads(l) for l in open(os.path.join(V, "properties.jsonl"))]
 checks = []
